@@ -1,9 +1,67 @@
 import CotengraVerif.Driver.Util
+import CotengraVerif.Model.RecipeCache
+import CotengraVerif.Model.Recipes
 
 namespace Cotengra.Driver.C02
 open Lean Cotengra Cotengra.Driver
 
-/-- ops of property C02 (name them "c02.<op>") -/
-def handlers : List (String × Handler) := []
+/-- rename labels by first appearance (python side does the same to the real equation) -/
+def canonLabels (ls : List (List Nat)) : List (List Nat) :=
+  let all := ls.flatten
+  let u := all.foldl (fun acc x => if acc.contains x then acc else acc ++ [x]) []
+  ls.map fun l => l.map fun x => u.idxOf x
+
+def optList (j : Json) (k : String) : Except String (Option (List Nat)) :=
+  match j.getObjVal? k with
+  | .ok .null => pure none
+  | .ok v => do pure (some (← natList v))
+  | .error _ => pure none
+
+/-- `c02.coherent`: the invariant `C02.Coherent` evaluated on a dump of the real `info` dicts, with
+    the concrete recipe functions of Model/Recipes.lean: every cached einsum_eq / tensordot_axes /
+    tensordot_perm must be the recipe of the *cached* inds of the node and its children. -/
+def coherent : Handler := fun j => do
+  let rows ← arrOf (← field j "nodes")
+  let mut bad : List Json := []
+  for row in rows do
+    let p ← natList (← field row "p")
+    let pI ← optList row "inds"
+    let lI ← optList row "l_inds"
+    let rI ← optList row "r_inds"
+    let eq := row.getObjVal? "einsum_eq"
+    let axes := row.getObjVal? "tensordot_axes"
+    let perm := row.getObjVal? "tensordot_perm"
+    let hasEq := match eq with | .ok .null => false | .ok _ => true | .error _ => false
+    let hasAxes := match axes with | .ok .null => false | .ok _ => true | .error _ => false
+    let hasPerm := match perm with | .ok _ => true | .error _ => false  -- cached value may be None
+    if hasEq || hasAxes || hasPerm then
+      match pI, lI, rI with
+      | some pI, some lI, some rI =>
+        if hasEq then
+          let e ← match eq with | .ok v => natListList v | .error e => throw e
+          let m := einsumEq lI rI pI
+          if canonLabels [m.1, m.2.1, m.2.2] != canonLabels e then
+            bad := bad ++ [jObj [("p", jNats p), ("field", jStr "einsum_eq")]]
+        if hasAxes then
+          let a ← match axes with | .ok v => natListList v | .error e => throw e
+          let m := tensordotAxes lI rI
+          if a != [m.1, m.2] then
+            bad := bad ++ [jObj [("p", jNats p), ("field", jStr "tensordot_axes")]]
+        if hasPerm then
+          let pm ← match perm with
+            | .ok .null => pure none
+            | .ok v => do pure (some (← natList v))
+            | .error e => throw e
+          -- only the axes-consistent part: a cached perm must be the perm of the cached inds
+          if hasAxes || true then
+            if pm != tensordotPerm lI rI pI then
+              bad := bad ++ [jObj [("p", jNats p), ("field", jStr "tensordot_perm")]]
+      | _, _, _ =>
+        -- a recipe is cached but one of the three index orders is not: in the real code a recipe
+        -- is only ever computed through get_inds, which caches
+        bad := bad ++ [jObj [("p", jNats p), ("field", jStr "recipe-without-inds")]]
+  pure (jObj [("bad", jArr bad)])
+
+def handlers : List (String × Handler) := [("c02.coherent", coherent)]
 
 end Cotengra.Driver.C02
